@@ -30,13 +30,18 @@ class RdflibTripleYielder(BaseTriplesYielder):
         if parse_namespaces:
             self._integrate_namespaces_from_parsed_graph(tmp_graph, self._namespaces_dict)
             self._prefixes_parsed = True
-        for sub, pred, obj in sorted(tmp_graph):  # rdflib iterates in hash order, which changes from run to run
+        for sub, pred, obj in sorted(tmp_graph, key=self._triple_sorting_key):  # rdflib iterates in hash order, which changes from run to run
             yield (
                 self._turn_rdflib_token_into_model_obj(sub),
                 self._turn_rdflib_prop_into_model_obj(pred),
                 self._turn_rdflib_token_into_model_obj(obj)
             )
             self._triples_count += 1
+
+    @staticmethod
+    def _triple_sorting_key(a_triple):
+        # rdflib terms do not always compare (ill-typed literals have no value): their N3 text does
+        return a_triple[0].n3(), a_triple[1].n3(), a_triple[2].n3()
 
     @property
     def rdflib_graph(self):
